@@ -385,6 +385,23 @@ S("find_gt_tail_fast_path_correct", [(UT, "    i = bisect.bisect_right(sorted_li
 S("find_ge_len_alias", [(UT, "    i = bisect.bisect_left(sorted_list, x)\n    if i != len(sorted_list):\n        return i\n    return None",
                          "    i = bisect.bisect_left(sorted_list, x)\n    n = len(sorted_list)\n    if i < n:\n        return i\n    return None", 0)])
 
+# ---- round 5: the less central API surface
+F("select_key_split", [(DB, "tag_key = key[5:]", "tag_key = key.split('.')[1]", 1)], ["C01", "C07", "C05", "C10"])
+F("time_leaf_enumerate", [(IDX, "for idx, timestamp in zip(self._storage_pos_sorted_by_ts, self._timestamps):",
+                           "for idx, timestamp in enumerate(self._timestamps):", 0)], ["C01", "C02", "C03", "C08"], ["C06", "C07"])
+F("close_resets_index", [(DB, "        self._open = False\n        self._storage.close()\n        return\n",
+                          "        self._open = False\n        self._index = Index()\n        self._storage.close()\n        return\n", 0)],
+  ["C13"], ["C06", "C01", "C07"])
+F("hash_fallback_to_identity", [(QR, "        return hash(self._hash)\n",
+                                 "        try:\n            return hash(self._hash)\n        except TypeError:\n            return object.__hash__(self)\n", 1)],
+  ["C17"])
+F("csv_reset_skips_empty_file", [(ST, "        self._write([])\n        return\n",
+                                  "        if os.path.getsize(self._path) == 0:\n            return\n        self._write([])\n        return\n", 1)],
+  ["C13", "C02", "C04", "C15"], ["C12"])
+F("update_all_via_public_update", [(DB, "return self._update_helper(True, TagQuery().noop(), time=time, measurement=measurement, tags=tags, fields=fields, _measurement=None, unset_fields=unset_fields, unset_tags=unset_tags)",
+                                    "return self.update(TagQuery().noop(), time=time, measurement=measurement, tags=tags, fields=fields, unset_fields=unset_fields, unset_tags=unset_tags)", 0)],
+  ["C15", "C13", "C12"], ["C03", "C01", "C10"])
+
 # ----------------------------------------------------------------- property dependencies
 # A breach of a discipline is reported under every property it is a necessary condition of
 # (e.g. a stale-but-valid index breaks C06 and therefore also the index-served answers of C01/C07;
